@@ -68,7 +68,26 @@ class RealWorld:
             parts.append(f'temp{i}=' + self.trade_str(t))
         parts.append('st=' + ''.join({'ACTIVE': 'A', 'EXECUTED': 'E', 'CANCELED': 'C'}[o.status] for o in self.s.orders))
         parts.append('trades=[' + ';'.join(self.trade_str(t) for t in st.completed_trades.trades) + ']')
+        # ClosedTrade.pnl of every closed trade (ties Jesse/TradeLog.lean to the real class)
+        parts.append(f'TP {len(st.completed_trades.trades)}')
+        for t in st.completed_trades.trades:
+            parts.append(self.trade_pnl(t))
         return ' '.join(parts)
+
+    @staticmethod
+    def trade_pnl(t):
+        import math
+        import warnings
+        with warnings.catch_warnings():
+            warnings.simplefilter('ignore')
+            try:
+                if len(t.buy_orders) == 0 or len(t.sell_orders) == 0 or float(t.buy_orders[:][:, 0].sum()) == 0 \
+                        or float(t.sell_orders[:][:, 0].sum()) == 0:
+                    return 'nan'
+                x = float(t.pnl)
+            except Exception:  # noqa
+                return 'nan'
+        return 'nan' if math.isnan(x) else fnum(x)
 
     # ------------------------------------------------------------------ operations
     def price(self, i, p):
